@@ -396,6 +396,11 @@ CORPUS_EXTRA = [
     [[["Code"], ["If", ["Val", "V1"]], ["Code"], ["Elif", ["Eq", "V0", 1]], ["Code"], ["Else"], ["Code"], ["Endif"]] * 4, [["V0", 1], ["V1", 0]], 1],
     [[["Def", "V1", ["R", "V0"]], ["If", ["Eq", "V1", 2]], ["Code"], ["Else"], ["Code"], ["Endif"], ["Code"]] * 2
      + [["If", ["Gt", "V1", 0]], ["Code"], ["Endif"]], [["V0", 2]], 1],
+    # one file compiled by two commands of the platform with different -D sets: a line is used if either command uses it
+    [[["If", ["Eq", "V0", 1]], ["Code"], ["Elif", ["Eq", "V0", 2]], ["Code"], ["Endif"], ["If", ["Defd", "F0"]], ["Code"], ["Endif"], ["Code"]],
+     [["V0", 1]], 0, [[["V0", 2], ["F0", "E"]]]],
+    [[["If", ["Eq", "V0", 1]], ["Code"], ["Elif", ["Eq", "V0", 2]], ["Code"], ["Endif"], ["If", ["Defd", "F0"]], ["Code"], ["Endif"], ["Code"]],
+     [["V0", 2], ["F0", "E"]], 0, [[["V0", 1]], [["V0", 0]]]],
 ]
 
 MALFORMED = [
@@ -413,7 +418,7 @@ MALFORMED = [
 class C01(Check):
     prop_id = "C01"
     rule = ("structured programs of nested #if/#ifdef/#ifndef/#elif/#else/#endif chains (depth <= 6), object-like "
-            "#define/#undef, code lines, x random -D assignments (undefined/empty/0/1/2); in 35 % of the random programs the value conditions are spelled through function-like helper macros given with -D (EQ__(V,k), an object-like alias EQA__(V,k), ID__(V) == k); exhaustive block: every "
+            "#define/#undef, code lines, x random -D assignments (undefined/empty/0/1/2); in 35 % of the random programs the value conditions are spelled through function-like helper macros given with -D (EQ__(V,k), an object-like alias EQA__(V,k), ID__(V) == k); 20 % of the random programs are compiled by 2-3 commands of the platform with different -D sets (expected marks: the union over the commands, each from a fresh state); exhaustive block: every "
             "structured program up to a line bound over 6 plain lines x 4 conditions x 5 define sets; plus a malformed "
             "stream (error class only). Non-trivial = at least one conditional chain AND at least one node skipped AND one node inside a chain used")
     assumptions = ["directive recognition / line counting of FileParser is C05's subject; here every node is one directive or a block of code lines",
@@ -436,6 +441,10 @@ class C01(Check):
             if self.rng.random() < 0.35:
                 case.append(1)                      # value conditions spelled through function-like helper macros
                 self.hist["fn_rendered"] = self.hist.get("fn_rendered", 0) + 1
+            if self.rng.random() < 0.2:
+                # the same file compiled again by further commands of the platform with other -D sets
+                case = case[:2] + [case[2] if len(case) > 2 else 0, [gen_env(self.rng) for _ in range(self.rng.randint(1, 2))]]
+                self.hist["several_commands"] = self.hist.get("several_commands", 0) + 1
             out.append(case)
         bound = 4 if self.tier == "quick" else 6
         for k in range(1, bound + 1):
@@ -454,8 +463,13 @@ class C01(Check):
             out.append([m, [["V0", 1]]])
         return out
 
+    @staticmethod
+    def more_of(case):
+        return case[3] if len(case) > 3 else []
+
     def encode(self, case):
         lines, env = case[:2]
+        more = self.more_of(case)
 
         def ec(c):
             return [c[0]] + list(c[1:])
@@ -464,6 +478,8 @@ class C01(Check):
             if l[0] in ("If", "Elif"):
                 return [l[0], ec(l[1])]
             return list(l)
+        if more:
+            return enc([[el(l) for l in lines], [[m, v] for m, v in env], [[[m, v] for m, v in e] for e in more]])
         return enc([[el(l) for l in lines], [[m, v] for m, v in env]])
 
     def impl(self, case):
@@ -479,10 +495,10 @@ class C01(Check):
         text, node_lines = render(lines, style=len(lines), fn=fn)
         f = root / "main.c"
         f.write_text(text)
-        defines = [m if v == 1 and (len(m) + len(lines)) % 2 else
-                   (f"{m}=" if v == "E" else (f"{m}={v[1]}" if isinstance(v, list) else f"{m}={v}")) for m, v in env]
-        if fn:
-            defines = defines + HELPERS
+        def defs_of(env):
+            d = [m if v == 1 and (len(m) + len(lines)) % 2 else
+                 (f"{m}=" if v == "E" else (f"{m}={v[1]}" if isinstance(v, list) else f"{m}={v}")) for m, v in env]
+            return d + HELPERS if fn else d
         created = []
 
         class Capturing(cbplatform.Platform):
@@ -493,7 +509,8 @@ class C01(Check):
         finder.platform.Platform = Capturing
         try:
             cb = codebasin.CodeBase(root)
-            cfg = {"P": [{"file": str(f), "defines": defines, "include_paths": [], "include_files": []}]}
+            cfg = {"P": [{"file": str(f), "defines": defs_of(e), "include_paths": [], "include_files": []}
+                         for e in [env] + self.more_of(case)]}
             try:
                 state = finder.find(str(root), cb, cfg)
             except Exception as e:  # noqa
@@ -521,8 +538,18 @@ class C01(Check):
             return ["Ok", ans[1], sorted([list(x) for x in ans[2]])]
         return ["Err", ans[1].split(":")[0]]
 
+    @classmethod
+    def _combine(cls, first, rest, k):
+        """Several commands over one file: the first diagnostic in command order, else the union of the
+        marks and the macro table of the last command."""
+        views = [cls._view(first)] + [cls._view(r[k]) for r in rest]
+        for v in views:
+            if v[0] != "Ok":
+                return v
+        return ["Ok", sorted(set().union(*[set(v[1]) for v in views])), views[-1][2]]
+
     def model_view(self, case, ans):
-        return self._view(ans[0])
+        return self._combine(ans[0], ans[2] if len(ans) > 2 else [], 0)
 
     def impl_view_for_model(self, case, ia):
         return ia[:2] if ia[0] == "Err" else ia
@@ -533,7 +560,7 @@ class C01(Check):
     def spec(self, case, ans):
         if ans is None or isinstance(ans, str):
             return None
-        return self._view(ans[1])
+        return self._combine(ans[1], ans[2] if len(ans) > 2 else [], 1)
 
     def in_domain(self, case, sa):
         ok = sa is not None and sa[0] == "Ok" and balanced(case[0])
@@ -567,6 +594,15 @@ class C01(Check):
         env2 = common.shrink_list(env, lambda e: still_fails([lines2, e] + rest))
         if rest and still_fails([lines2, env2]):
             rest = []
+        if len(rest) > 1 and rest[1]:
+            if still_fails([lines2, env2, rest[0]]):
+                rest = rest[:1]
+            else:
+                for i in range(len(rest[1])):
+                    cand = rest[1][:i] + rest[1][i + 1:]
+                    if cand and still_fails([lines2, env2, rest[0], cand]):
+                        rest = [rest[0], cand]
+                        break
         return [lines2, env2] + rest
 
     # ---- S versus gcc (thorough tier, and a small sample in quick) ----
